@@ -13,12 +13,17 @@ from .emit import Site, emission_sites, flag_values
 
 INSERT_KINDS = {"ListInsert", "DictInsert", "CallArg", "AddArgument"}
 
+from .C17 import clone_def
+from .C02 import same_type
+
 
 def check(repo: Repo, rep, tier):
     rep.not_decided = "that the values after a run are the documented function of the whole history of comparisons; tightness of trimmed values"
     flag_label(repo, rep)
     replace_pair(repo, rep, "C05")
     bound_order(repo, rep)
+    same_type(repo, rep)
+    clone_def(repo, rep)
 
 
 def role(e: ast.AST) -> str:
